@@ -107,7 +107,9 @@ func findSelectorExprViolation(
 	// Check different types of objects
 	switch obj := obj.(type) {
 	case *types.TypeName:
-		return findTypeViolation(ctx, pkgPath, obj.Name(), expr.Pos())
+		// An alias declared in another package denotes the type it was declared for
+		target := resolveTypeName(obj)
+		return findTypeViolation(ctx, target.Pkg().Path(), target.Name(), expr.Pos())
 
 	case *types.Func:
 		if obj.Type() != nil && obj.Type().(*types.Signature).Recv() != nil {
@@ -121,6 +123,18 @@ func findSelectorExprViolation(
 	}
 
 	return nil
+}
+
+// resolveTypeName follows an alias declaration to the defined type it denotes.
+// Non-alias type names (and aliases of unnamed types) are returned unchanged.
+func resolveTypeName(obj *types.TypeName) *types.TypeName {
+	if !obj.IsAlias() {
+		return obj
+	}
+	if named, ok := util.Deref(obj.Type()).(*types.Named); ok && named.Obj().Pkg() != nil {
+		return named.Obj()
+	}
+	return obj
 }
 
 // findIdentViolation checks identifier usage for local package objects
@@ -141,7 +155,9 @@ func findIdentViolation(
 
 	switch obj := obj.(type) {
 	case *types.TypeName:
-		return findTypeViolation(ctx, ctx.currentPkgPath, obj.Name(), ident.Pos())
+		// A local alias ("type A = other.T") is a reference to other.T
+		target := resolveTypeName(obj)
+		return findTypeViolation(ctx, target.Pkg().Path(), target.Name(), ident.Pos())
 
 	case *types.Func:
 		if obj.Type() != nil && obj.Type().(*types.Signature).Recv() != nil {
